@@ -536,6 +536,16 @@ public:
     double* SX=buffer+offset;
     double alpha;
     double range = t_end - t_start;
+    //averages of sin(a*t) and cos(a*t) over [t_start,t_end]. For coincident levels (a==0)
+    //or an empty interval the closed form is 0/0; its limit is the integrand itself.
+    auto avg_sin=[=](double a){
+      double x=a*range;
+      return x==0 ? sin(a*t_start) : (cos(a*t_start) - cos(a*t_end))/x;
+    };
+    auto avg_cos=[=](double a){
+      double x=a*range;
+      return x==0 ? cos(a*t_start) : (sin(a*t_end) - sin(a*t_start))/x;
+    };
 #include "SU_inc/PreEvolutionSelectAvgRange.txt"
   }
   
